@@ -482,6 +482,7 @@ func (w *World) Anchors() *Anchors {
 			})
 		}
 	}
+	a.ChClose = climbSame(a.ChClose) // the state transition may have been split off the close function
 	// API methods by name (exported: cannot change without breaking the interface)
 	a.ClientSend, a.ClientRecv = w.methodFn(a.CS, "SendMsg"), w.methodFn(a.CS, "RecvMsg")
 	a.ServerSend, a.ServerRecv = w.methodFn(a.SS, "SendMsg"), w.methodFn(a.SS, "RecvMsg")
